@@ -15,7 +15,8 @@
     (pool = map of the objects, a name = its four bytes), [TT.lift] maps Ok / Panic / OutOfFuel to GOk / GPanic / GFuel.
     newObject calls pOpcodeTableIndex (parser_opcode_table.go), which is not translated: the translated newObject takes
     an oracle `N -> bool -> option N` for it, instantiated with the model's own [pOpcodeTableIndex] ([TT.table_oracle];
-    that function stays tied by the regenerated tables, differential testing and the source pin).
+    Props/C13_trans_opcode.v translates pOpcodeTableIndex too, proves it equal to the model's function and restates
+    these ties with the translated callee in place of the oracle).
     Statements only; proofs are in Aml/TreeTrans.v. *)
 From Coq Require Import NArith List.
 From FF Require Import Lib.GoOps Lib.GoPool Gen.Consts_aml_tree Gen.Trans_aml_tree Aml.Stream Aml.Tree.
